@@ -1,6 +1,7 @@
 import Driver.Common
 import Cppcheck.Model.ClangLine
 import Cppcheck.Model.ClangDeclMap
+import Cppcheck.Model.Links
 open Cppcheck.Wire
 
 namespace Driver.C35
@@ -54,8 +55,10 @@ def dataOut (n : Nat) (s : DState) : String :=
       optStr (at_.enumr.bind (assoc s.enumTok)) ++ ";")
   let has := String.join (s.addrs.map fun a => boolStr (s.dt.hasDecl a))
   -- getVariableList(): ret[var->declarationId()] = var for every map entry with a variable
+  -- std::map iterates in key order; a later entry with the same declaration id overwrites an earlier one
+  let sorted := (s.dt.declMap.mergeSort (fun a b => a.1 ≤ b.1)).reverse
   let vl := String.join ((List.range (s.dt.varId + 1)).map fun id =>
-    " " ++ optStr ((s.dt.declMap.findSome? fun kv =>
+    " " ++ optStr ((sorted.findSome? fun kv =>
       if kv.2.kind = .var ∧ (s.dt.attrs (s.dt.varDef kv.2.obj)).varId = id then some (s.dt.varDef kv.2.obj) else none)))
   toks ++ " | h" ++ has ++ " | l" ++ vl
 
@@ -163,8 +166,38 @@ def evStr : Ev → String
   | .ref a t => "r:" ++ toHex a ++ ":" ++ toString t
   | .replace f t => "x:" ++ toString f ++ ":" ++ toString t
 
+def parseO (s : String) : Option (Option Nat) := if s == "-" then some none else s.toNat?.map some
+
+/-- `inv` op: per token "parent,op1,op2,link,<first char as decimal>" -/
+def parseInv : List String → Option (List (Option Nat × Option Nat × Option Nat × Option Nat × Char))
+  | [] => some []
+  | f :: r =>
+    match f.splitOn ",", parseInv r with
+    | [a, b, c, d, e], some rest =>
+      match parseO a, parseO b, parseO c, parseO d, e.toNat? with
+      | some a, some b, some c, some d, some e => some ((a, b, c, d, Char.ofNat e) :: rest)
+      | _, _, _, _, _ => none
+    | _, _ => none
+
+def invRun (rows : List (Option Nat × Option Nat × Option Nat × Option Nat × Char)) : String :=
+  let parent := rows.map (·.1)
+  let op1 := rows.map (·.2.1)
+  let op2 := rows.map (·.2.2.1)
+  let link := rows.map (·.2.2.2.1)
+  let ts : List Links.Tok := rows.map fun r => [r.2.2.2.2]
+  let li := match Links.createLinks ts with
+    | .ok L => L == link
+    | .error _ => false
+  "inv=" ++ boolStr (checkInv parent op1 op2) ++ " links=" ++ boolStr li
+
+def modeFixed (m : String) : Bool := m == "sf"
+
 def step (line : String) : String :=
   match fields line with
+  | "inv" :: _ :: rows =>
+    match parseInv rows with
+    | some r => invRun r
+    | none => "bad-op"
   | ["split", h] =>
     match fromHex h with
     | some s => splitStr (splitString s)
@@ -180,24 +213,24 @@ def step (line : String) : String :=
       | (0, _) :: r => if wellNested 0 r then locRun items else "bad-op"
       | _ => "bad-op"
     | none => "bad-op"
-  | ["refs", _, f, h] =>
+  | ["refs", _, f, h, m] =>
     match fromHex f, fromHex h with
     | some f, some t =>
-      match importDump f t with
+      match importDump f t (modeFixed m) with
       | .ok im => refsOut im
       | .error e => errStr e
     | _, _ => "bad-op"
-  | ["dump", _, f, h] =>
+  | ["dump", _, f, h, m] =>
     match fromHex f, fromHex h with
     | some f, some t =>
-      match importDump f t with
+      match importDump f t (modeFixed m) with
       | .ok im => dumpOut im
       | .error e => errStr e
     | _, _ => "bad-op"
-  | ["events", _, f, h] =>      -- model-only: the declaration-map events and the setter calls of the import
+  | ["events", _, f, h, m] =>      -- model-only: the declaration-map events and the setter calls of the import
     match fromHex f, fromHex h with
     | some f, some t =>
-      match importDump f t with
+      match importDump f t (modeFixed m) with
       | .ok im => "ok " ++ toString im.ops.length ++ " " ++ boolStr (im.ops.all AstStore.Op.viaOperands) ++ String.join (im.events.map fun e => " " ++ evStr e)
       | .error e => errStr e
     | _, _ => "bad-op"
